@@ -988,11 +988,83 @@ def drive(coro):
 # =========================================================================
 # 3. Run - baton scheduler
 # =========================================================================
+def _signal():
+    """binary semaphore, initially 0: a plain lock that is held; release()
+    signals, acquire() waits (cheaper than threading.Semaphore: every
+    hand-over is one futex operation, no Python-level condition variable)"""
+    l = threading.Lock()
+    l.acquire()
+    return l
+
+
+class _Host:
+    """a reusable thread: creating a thread per simulated process and run is
+    by far the most expensive part of a replay"""
+
+    def __init__(self):
+        self.wake = _signal()
+        self.job = None
+        self.idle = True
+        self.thread = threading.Thread(target=self._loop, daemon=True)
+        self.thread.start()
+
+    def _loop(self):
+        while True:
+            self.wake.acquire()
+            job, self.job = self.job, None
+            if job is None:
+                return
+            try:
+                job()
+            except BaseException:     # _main handles everything itself
+                pass
+            self.idle = True
+            _hosts().append(self)
+
+    def run(self, job):
+        self.idle = False
+        self.job = job
+        self.wake.release()
+
+
+_HOSTS = (None, [], [])     # (os pid, idle hosts, all hosts)
+
+
+def _hosts(all=False):
+    global _HOSTS
+    if _HOSTS[0] != _os.getpid():     # first use, or we are a forked child
+        _HOSTS = (_os.getpid(), [], [])
+    return _HOSTS[2] if all else _HOSTS[1]
+
+
+def _get_host():
+    idle = _hosts()
+    try:
+        return idle.pop()
+    except IndexError:
+        h = _Host()
+        _hosts(all=True).append(h)
+        return h
+
+
+def shutdown_hosts():
+    """end all pooled threads of this OS process (before forking)"""
+    import time
+    for h in list(_hosts(all=True)):
+        while not h.idle:
+            time.sleep(0.0005)
+        h.job = None
+        h.wake.release()
+        h.thread.join()
+    del _hosts(all=True)[:]
+    del _hosts()[:]
+
+
 class Proc:
     def __init__(self, pid, body):
         self.pid = pid
         self.body = body
-        self.sem = threading.Semaphore(0)
+        self.sem = _signal()
         self.thread = None
         self.status = "new"     # new parked running done failed crashed
         self.pending = None     # (name, args) of the parked operation
@@ -1021,7 +1093,7 @@ class Run:
     def __init__(self, world, bodies, params=None, symmetric=False):
         self.world = world
         self.procs = [Proc(i, b) for i, b in enumerate(bodies)]
-        self.ctl = threading.Semaphore(0)
+        self.ctl = _signal()
         self.cur = None          # pid holding the baton
         self.log = []            # (step, pid, name, args, result)
         self.nsteps = 0
@@ -1218,9 +1290,8 @@ class Run:
         _RT = self
         self.started = True
         for p in self.procs:
-            p.thread = threading.Thread(target=self._main, args=(p,),
-                                        daemon=True)
-            p.thread.start()
+            p.thread = _get_host()
+            p.thread.run(lambda p=p: self._main(p))
             p.sem.release()
             self.ctl.acquire()
             self._check_bug()
@@ -1262,7 +1333,6 @@ class Run:
         p.abandon = True
         p.sem.release()
         self.ctl.acquire()
-        p.thread.join()
 
     def parked(self):
         return [p for p in self.procs if p.status == "parked"]
@@ -1317,7 +1387,6 @@ class Run:
                 p.sem.release()
                 self.ctl.acquire()
             # any other status: the thread is past its last hand-over
-            p.thread.join()
         if _RT is self:
             _RT = None
 
@@ -1489,7 +1558,7 @@ def _allowed(space, obs, cur, used):
     return out
 
 
-def explore(ctx, space, res, inline_below=24):
+def explore(ctx, space, res, inline_below=96):
     """level-synchronous BFS with replay; fills res (violations, counters
     prefixed with the space name, outcomes, nontrivial).  -> stats dict"""
     stats = dict(states=0, transitions=0, executions=0, levels=0,
@@ -1533,6 +1602,7 @@ def explore(ctx, space, res, inline_below=24):
             if pool is None and len(frontier) >= inline_below \
                     and ctx.workers > 1:
                 # forked once, after `expand` exists; lives for all levels
+                shutdown_hosts()
                 pool = mp.get_context("fork").Pool(ctx.workers)
     finally:
         _EXPAND = None
